@@ -203,7 +203,14 @@ def edge_families():
                         t += " and %span{%s}" % (ref, c)
                     out.append(t)
                     out.append(">> [duplicate]: ref\n" + t.replace(ref, mark))
-    fm_tail = ["time: soon", "servings: abc", "tags: [a, [b]]", "locale: xx_yyy", "prep time: x\ncook time: y\ntime: z",
+    # quantities with a scaling lock / blanks / comments in every position, with and without `%`
+    for v in ["= some", "= ", " = [- c -] splash", "=", "= 1 kg", "= some%kg", " =1", "=  2 cups", "= [- c -]", "=%g", " = ",
+              "1 [- c -] 1/2%cup", "1 [- c -] / 2", "2 [- c -] 1/4 cups", "[- a -] [- b -] =1%kg", "1-inch piece", "1-", "-1", "1 -2"]:
+        for mark in ("@a", "#a", "~a", "~"):
+            out.append("%s{%s}" % (mark, v))
+    fm_tail = ["servings: []", "yield: []", "serves: []", "servings: 0", "servings: [0]", "time: \"  \"", "prep time: \"\t\"",
+               "time: {prep: \"  \", cook: 5}", "servings: 18446744073709551615", "time: 0x10", "locale: é", "servings: [2, 4, 2]",
+               "time: soon", "servings: abc", "tags: [a, [b]]", "locale: xx_yyy", "prep time: x\ncook time: y\ntime: z",
                "time: 1h\nprep time: 5m\ncook time: 5m", "author: {nick: r}", "servings: [2, 2]"]
     for nl in ("\n", "\r\n"):
         for head in ["title: é", "title: é\nx: 名", "a: 1\nb: ñ\nc: 名é", "description: \"é\"\nk: v\nz: 名"]:
